@@ -6410,6 +6410,15 @@ class Path(Shape, MutableSequence):
         for subpath in subpaths:
             subpath.reverse()
         for subpath in reversed(subpaths):
+            first = subpath[0]
+            if (
+                not isinstance(first, Move)
+                and first.start is not None
+                and (len(p) != 0 or isinstance(subpath[-1], Close))
+            ):
+                # A subpath that began without its own move (directly after a close) needs one
+                # once it no longer follows that close, else its first point is lost.
+                p.append(Move(end=Point(first.start)))
             p += subpath
         self._segments = p._segments
         if isinstance(self._segments[0], Move):
